@@ -48,7 +48,7 @@ class Mon:
         from pydrobert.speech import filters as F
 
         for cls in (F.TriangularOverlappingFilterBank, F.Fbank, F.GaborFilterBank, F.ComplexGammatoneFilterBank):
-            monitor.attach(cls, "get_truncated_response", post=self.post)
+            monitor.attach(cls, "get_truncated_response", post=self.post, ambient=self.v)
 
     def v(self, what, **kw):
         self.rec.violation(dict(what=what, case=self.case, **kw))
